@@ -1,5 +1,6 @@
 import GixModel.Lemmas.C49Entry
 import GixModel.Lemmas.C49Walk
+import GixModel.Lemmas.C49End
 /-
 C49 — Status agrees with git status.  PROPERTY THEOREMS ONLY.
 
@@ -24,6 +25,26 @@ against the git binary by the same harness.
 * `collapse_eq_git`         — by induction over directory trees of any depth and width: a directory
                               is folded into ONE entry exactly when git's rule says so, and with
                               git's status.
+
+ROUND 2
+* `entry_status_eq_git_wide` — `entry_status_eq_git` with the restriction on the worktree file's
+                              kind removed where the code is right: whatever replaced a tracked
+                              symbolic link (FIFO, socket, device) is a type change for both;
+                              `special_file_differs` proves the remaining restriction necessary
+                              (a FIFO in place of a regular file: gitoxide "type change", git
+                              "modified" — recorded).
+* `walk_eq_git`             — the WHOLE directory walk (`-unormal --ignored`): for every tree of
+                              any depth, the multiset of (path, status) the walk model emits —
+                              including the ignored entries still listed inside a folded untracked
+                              directory — is what the transcription of git's `dir.c` rules lists
+                              (`gitShowL`).
+* `status_eq_git`           — END TO END ON THE MODELS, submodule- and rename-free: for a worktree
+                              described by per-entry facts (index entries with their `lstat`
+                              results and content verdicts, the directory tree with per-entry
+                              facts), the multiset of lines gitoxide's status model reports,
+                              printed as git prints them, equals the git specification's
+                              (composition of `entry_status_eq_git_wide`, `classify_eq_git`,
+                              `collapse_eq_git`/`walk_eq_git`).
 -/
 namespace GixModel.Props.C49
 open GixModel GixModel.C49 GixModel.Spec.C49
@@ -157,5 +178,81 @@ example : gitFold (leavesL [.file [117] ⟨false, false, false, false, none, fal
       [.file [120] ⟨false, false, false, false, some .expendable, false⟩]]) = some .untracked := by decide
 example : gitFold (leavesL [.file [116] ⟨false, false, true, false, none, false⟩,
     .file [117] ⟨false, false, false, false, none, false⟩]) = none := by decide
+
+/-! ### round 2: wider entry domain, the whole walk, and the end-to-end corollary -/
+
+/-- `entry_status_eq_git` on the wider domain `DomainW`: the worktree file may be of ANY kind when
+the entry is a symbolic link (`Domain` implies `DomainW`: `domain_wide`). -/
+theorem entry_status_eq_git_wide (e : Entry) (l : Lookup) (tsS tsN : Nat) (o : Opts) (hashDiffers : Bool)
+    (h : ∀ m, l = .found m → DomainW e m tsS o hashDiffers) :
+    letterOf (entryStatus e l tsS tsN o hashDiffers) = gitLetter e l tsS o hashDiffers := by
+  cases l with
+  | notFound =>
+    unfold entryStatus gitLetter
+    cases e.skip <;> simp [letterOf]
+  | found m => exact entry_found_wide e m tsS tsN o hashDiffers (h m rfl)
+
+/-- the restriction that is left is necessary: a FIFO where the index has a regular file is a type
+change for gitoxide and a modification for git (recorded finding) -/
+theorem special_file_differs :
+    ∃ (e : Entry) (m : Meta) (tsS tsN : Nat) (o : Opts) (hd : Bool),
+      e.mode = .file ∧ m.kind = .other ∧
+      letterOf (entryStatus e (.found m) tsS tsN o hd) = .typechange ∧
+      gitLetter e (.found m) tsS o hd = .modified :=
+  ⟨⟨.file, false, false, ⟨100, 0, 100, 0, 1, 2, 3, 4, 4⟩, false⟩,
+   ⟨.other, false, ⟨100, 0, 100, 0, 1, 2, 3, 4, 0⟩, 0⟩, 5000, 0,
+   ⟨⟨true, true, false, false⟩, true, true⟩, false, rfl, rfl, by decide, by decide⟩
+
+-- non-vacuity: a socket where the index has a symbolic link is in the wide domain
+example : DomainW ⟨.symlink, false, false, ⟨100, 0, 100, 0, 1, 2, 3, 4, 4⟩, false⟩
+    ⟨.other, false, ⟨100, 0, 100, 0, 1, 2, 3, 4, 0⟩, 0⟩ 5000 ⟨⟨true, true, false, false⟩, true, true⟩ false :=
+  ⟨by decide, by decide, by decide, by decide, by decide, by decide, by decide, by decide, by decide⟩
+
+/-- The whole walk. For every directory tree (any depth and width) whose facts are coherent
+(`saneL`: files are files, directories are directories, the index never holds both `p` and `p/…`)
+and that contains no `.git` entry, no precious-ignore match and no empty directory (`goodL`), the
+entries the walk model hands to its delegate are, as a multiset of (path, status), the `??`/`!!`
+lines of git's rules. -/
+theorem walk_eq_git (cs : List Tree) (hg : goodL cs = true) (hs : saneL cs = true) :
+    ((walk normalOpts cs).map shownOf).Perm (gitShowL [] cs) :=
+  GixModel.C49.walk_eq_git cs hg hs
+
+/-- END TO END ON THE MODELS (no submodules, no rename tracking). For a worktree described by
+per-entry facts, the lines gitoxide's status model reports — the changed index entries with their
+status, then the untracked and ignored entries of the directory walk — printed as git prints them,
+are exactly (as a multiset) the lines of the git specification. -/
+theorem status_eq_git (w : Worktree)
+    (hdom : ∀ x ∈ w.entries, ∀ m, x.l = .found m → DomainW x.e m w.tsS w.o x.hashDiffers)
+    (hg : goodL w.tree = true) (hs : saneL w.tree = true) :
+    ((report w normalOpts).map lineOf).Perm (gitReport w) :=
+  report_eq_git w hdom hg hs
+
+-- non-vacuity: index {a (modified: size differs), gone (deleted)}, worktree `a`, `u`, `d/{v, x.log}`,
+-- `.gitignore`d `*.log`: git prints ` M a`, ` D gone`, `?? u`, `?? d/`, `!! d/x.log`
+example : gitReport ⟨[⟨[97], ⟨.file, false, false, ⟨100, 0, 100, 0, 1, 2, 3, 4, 4⟩, false⟩,
+      .found ⟨.file, false, ⟨200, 0, 200, 0, 1, 2, 3, 4, 9⟩, 9⟩, true⟩,
+    ⟨[103], ⟨.file, false, false, ⟨100, 0, 100, 0, 1, 2, 3, 4, 4⟩, false⟩, .notFound, false⟩],
+    5000, 0, ⟨⟨true, true, false, false⟩, true, true⟩,
+    [.file [97] ⟨false, false, true, false, none, false⟩,
+     .file [117] ⟨false, false, false, false, none, false⟩,
+     .dir [100] ⟨false, true, false, false, none, false⟩
+       [.file [118] ⟨false, false, false, false, none, false⟩,
+        .file [120] ⟨false, false, false, false, some .expendable, false⟩]]⟩
+    = [.change [97] .modified, .change [103] .deleted, .other [117] .untracked, .other [100] .untracked,
+       .other [100, 47, 120] (.ignored .expendable)] := by decide
+-- … and that worktree satisfies the hypotheses of `status_eq_git`
+example : goodL [.file [97] ⟨false, false, true, false, none, false⟩,
+     .file [117] ⟨false, false, false, false, none, false⟩,
+     .dir [100] ⟨false, true, false, false, none, false⟩
+       [.file [118] ⟨false, false, false, false, none, false⟩,
+        .file [120] ⟨false, false, false, false, some .expendable, false⟩]] = true := by decide
+example : saneL [.file [97] ⟨false, false, true, false, none, false⟩,
+     .file [117] ⟨false, false, false, false, none, false⟩,
+     .dir [100] ⟨false, true, false, false, none, false⟩
+       [.file [118] ⟨false, false, false, false, none, false⟩,
+        .file [120] ⟨false, false, false, false, some .expendable, false⟩]] = true := by decide
+example : DomainW ⟨.file, false, false, ⟨100, 0, 100, 0, 1, 2, 3, 4, 4⟩, false⟩
+    ⟨.file, false, ⟨200, 0, 200, 0, 1, 2, 3, 4, 9⟩, 9⟩ 5000 ⟨⟨true, true, false, false⟩, true, true⟩ true :=
+  ⟨by decide, by decide, by decide, by decide, by decide, by decide, by decide, by decide, by decide⟩
 
 end GixModel.Props.C49
